@@ -14,6 +14,7 @@ import HdwModel.Model.Cli
 import HdwModel.Driver.Judge
 import HdwModel.Driver.JudgeTx
 import HdwModel.Driver.JudgeTd
+import HdwModel.Driver.JudgeSign
 
 namespace Hdw.Driver
 open Hdw
@@ -492,6 +493,35 @@ def judgeCli (env : Env) (parts : List String) (resp : String) : Judge.Verdict :
   | ["cli.hash_td", j, mh] => match unhex j with
     | some j => Judge.judgeCliHashTd j (mh == "1") resp
     | none => .skip
+  | ["cli.sign_message", mn, pw, sel, m] =>
+    match acctArg mn pw sel, unhex m with
+    | some a, some m =>
+      match Cli.privateKey X a with
+      | .ok d => Judge.judgeSignedLine d (Judge.eip191 m) resp
+      | .err _ => Judge.expect (resp == "err") "no key can be selected: must be an error with no output"
+      | .panic _ => .skip
+    | _, _ => .skip
+  | ["cli.sign_raw", mn, pw, sel, dt] =>
+    match acctArg mn pw sel, utf8Arg dt with
+    | some a, some dt =>
+      let t := String.ofList dt
+      let body := if t.startsWith "0x" then (t.drop 2).toString else t
+      let isHex := body.length == 64 && body.all fun c => c.isDigit || ('a' ≤ c && c ≤ 'f') || ('A' ≤ c && c ≤ 'F')
+      if !isHex then .skip else
+      match Cli.privateKey X a, unhex body.toLower with
+      | .ok d, some dg => Judge.judgeSignedLine d dg resp
+      | .err _, _ => Judge.expect (resp == "err") "no key can be selected: must be an error with no output"
+      | _, _ => .skip
+    | _, _ => .skip
+  | ["cli.sign_td", mn, pw, sel, j] =>
+    match acctArg mn pw sel, unhex j with
+    | some a, some j =>
+      match Cli.privateKey X a, Judge.specTdDigest j with
+      | .ok d, some (some dg, open_) => if open_ && resp == "err" then .holds else Judge.judgeSignedLine d dg resp
+      | .ok _, some (none, _) => Judge.expect (resp == "err") "ill-formed domain type / non-conforming document: nothing may be signed"
+      | .err _, _ => Judge.expect (resp == "err") "no key can be selected: must be an error with no output"
+      | _, _ => .skip
+    | _, _ => .skip
   | ["cli.hash_tx", j, sig] =>
     match unhex j, (if sig == "none" then some none else (utf8Arg sig).map fun t => some (String.ofList t)) with
     | some j, some σ => Judge.judgeCliHashTx j σ resp
